@@ -5585,4 +5585,902 @@ theorem again_then_caller (cfg : Cfg) (s : St) (c p k : Nat) (rest ds' : List Na
     a9, a5, hd.2.1, hbase Task.pc (.inl rfl), hd.2.2.2.2, hb3]
   simp
 
+
+/-! ## Part 12: the wake time recorded in a step event is the one the preceding yield asked for (trace level) -/
+
+def Y.isSend : Y → Bool
+  | .send _ _ _ _ => true
+  | _ => false
+
+def Rf.isSend : Rf → Bool
+  | .send _ _ _ _ _ => true
+  | _ => false
+
+def evTid : Ev → Nat
+  | .step t _ _ _ _ _ => t
+  | .fire t _ _ => t
+
+theorem genStep_yield_get {n : Nat} {prog : List Y} {pc : Nat} {r : Recv} {y : Y} (h : genStep n prog pc r = .yield y) :
+    prog[pc]? = some y := by
+  unfold genStep at h
+  have key : ∀ o, (match prog[pc]? with
+      | none => Out.stop
+      | some (.raise n) => .raise (.user n)
+      | some (.cancel j) => if j < n then .yield (.cancel j) else .raise .indexError
+      | some y => .yield y) = o → o = .yield y → prog[pc]? = some y := by
+    intro o ho hy
+    cases hq : prog[pc]? with
+    | none => rw [hq] at ho; subst ho; cases hy
+    | some z =>
+      rw [hq] at ho
+      cases z <;> simp only [] at ho <;> subst ho <;> first
+        | (cases hy; rfl)
+        | cases hy
+        | (split at hy <;> first | (cases hy; rfl) | cases hy)
+  split at h
+  · cases h
+  · exact key _ rfl h
+
+theorem timerStep_trace_ext (s : St) (t j pc : Nat) :
+    ∃ ext, (timerStep s t j pc).trace = s.trace ++ ext ∧ ∀ e ∈ ext, evTid e = t := by
+  unfold Pox.Recoco.timerStep
+  split
+  · exact ⟨[], by simp, by simp⟩
+  · split
+    · exact ⟨[], by simp, by simp⟩
+    · split
+      · exact ⟨[], by simp, by simp⟩
+      · split
+        · exact ⟨[], by simp, by simp⟩
+        · simp only []
+          rename_i tm _ _ _ _
+          split
+          · exact ⟨[.fire t tm.fired s.now], rfl, by simp [evTid]⟩
+          · exact ⟨[.fire t tm.fired s.now], by simp, by simp [evTid]⟩
+
+theorem resumeGen_trace_ext (cfg : Cfg) (s : St) (t : Nat) (tk : Task) (r : Recv) (raw : Val) :
+    ∃ ext, (resumeGen cfg s t tk r raw).trace = s.trace ++ ext ∧ ∀ e ∈ ext, evTid e = t := by
+  by_cases hk : ∀ j, tk.kind ≠ .timer j
+  · exact ⟨_, resumeGen_trace_nt cfg s t tk r raw hk, by simp [evTid]⟩
+  · have ⟨j, hj⟩ : ∃ j, tk.kind = .timer j := by
+      cases h : tk.kind with
+      | timer j => exact ⟨j, rfl⟩
+      | top k => exact absurd (fun j => by rw [h]; simp) hk
+      | sub k p => exact absurd (fun j => by rw [h]; simp) hk
+    unfold Pox.Recoco.resumeGen
+    simp only [hj]
+    obtain ⟨ext, he, hx⟩ := timerStep_trace_ext { setTask s t (fun k => { k with pc := k.pc + 1, wake := none }) with
+        trace := s.trace ++ [.step t tk.pc s.now r raw tk.wake] } t j tk.pc
+    refine ⟨.step t tk.pc s.now r raw tk.wake :: ext, ?_, ?_⟩
+    · rw [he]; simp
+    · intro e hm
+      rcases List.mem_cons.mp hm with rfl | hm
+      · rfl
+      · exact hx e hm
+
+theorem cycleExec_trace_ext (cfg : Cfg) (s : St) (t : Nat) (hr : s.running = some t) :
+    ∃ ext, (cycleExec cfg s).trace = s.trace ++ ext ∧ ∀ e ∈ ext, evTid e = t := by
+  unfold Pox.Recoco.cycleExec
+  simp only [hr]
+  split
+  · exact ⟨[], by simp, by simp⟩
+  · rename_i tk htk
+    have htr := execPre_trace cfg { s with running := none } t tk
+    split
+    · rename_i s1 he; rw [he] at htr
+      exact ⟨[], by rw [List.append_nil]; exact htr, by simp⟩
+    · rename_i e s1 he; rw [he] at htr
+      exact ⟨[], by rw [List.append_nil]; exact htr, by simp⟩
+    · rename_i r s1 he; rw [he] at htr
+      have htr' : s1.trace = s.trace := htr
+      split
+      · exact ⟨[], by rw [List.append_nil]; exact htr', by simp⟩
+      · rename_i tk1 _
+        obtain ⟨ext, h1, h2⟩ := resumeGen_trace_ext cfg s1 t tk1 r tk.rv
+        exact ⟨ext, by rw [h1, htr'], h2⟩
+
+
+/-- `execute()` answers `ABORT` only for a `Send` that has to wait again; the task keeps a `Send` return function -/
+theorem execPre_abort (cfg : Cfg) (s s1 : St) (t : Nat) (tk : Task) (ht : s.tasks[t]? = some tk)
+    (h : execPre cfg s t tk = (.abort, s1)) :
+    (∃ rf, tk.rf = some rf ∧ rf.isSend = true) ∧
+    ∃ tk1, s1.tasks[t]? = some tk1 ∧ tk1.kind = tk.kind ∧ tk1.pc = tk.pc ∧ tk1.st = tk.st ∧ ∃ rf, tk1.rf = some rf ∧ rf.isSend = true := by
+  unfold execPre at h
+  simp only [] at h
+  repeat' split at h
+  all_goals
+    simp only [Prod.mk.injEq] at h
+    obtain ⟨h1, rfl⟩ := h
+  all_goals try (cases h1)
+  all_goals
+    have hrf := ‹tk.rf = some _›
+    refine ⟨⟨_, hrf, rfl⟩, ?_⟩
+    simp [registerSelect, List.getElem?_modify, ht, hrf, Rf.isSend]
+
+
+theorem execPre_resume_rf (cfg : Cfg) (s s1 : St) (t : Nat) (tk : Task) (r : Recv) (ht : s.tasks[t]? = some tk)
+    (h : execPre cfg s t tk = (.resume r, s1)) : ∃ tk1, s1.tasks[t]? = some tk1 ∧ tk1.rf = none := by
+  unfold execPre at h
+  simp only [] at h
+  repeat' split at h
+  all_goals
+    simp only [Prod.mk.injEq] at h
+    obtain ⟨h1, rfl⟩ := h
+  all_goals try (cases h1)
+  all_goals first
+    | (simp [List.getElem?_modify, ht]; done)
+    | (have hrf := ‹tk.rf = none›
+       simp [List.getElem?_modify, ht, hrf])
+
+/-- the generator of a top-level task (no return function pending) yields `y`: what the task record looks like afterwards -/
+theorem resumeGen_top_yield (cfg : Cfg) (s : St) (t : Nat) (tk : Task) (k : Nat) (prog : List Y) (y : Y) (r : Recv) (raw : Val)
+    (htk : s.tasks[t]? = some tk) (hkind : tk.kind = .top k) (hprog : cfg.progs[k]? = some prog) (hrf : tk.rf = none)
+    (hy : genStep s.timers.length prog tk.pc r = .yield y) :
+    ∃ tk', (resumeGen cfg s t tk r raw).tasks[t]? = some tk' ∧ tk'.kind = .top k ∧ tk'.pc = tk.pc + 1 ∧
+      tk'.wake = reqWake s.now y ∧ (∀ rf, tk'.rf = some rf → rf.isSend = true → y.isSend = true) := by
+  have hw := resumeGen_wake cfg s t tk k prog y r raw htk hkind hprog hy
+  have hlt : t < s.tasks.length := (List.getElem?_eq_some_iff.mp htk).1
+  obtain ⟨kind, pc, rv, re, rf, st, wake, prio⟩ := tk
+  simp only at hkind hy hrf
+  subst hkind hrf
+  simp only [resumeGen, hprog, setTask_timers, hy, topOut] at hw ⊢
+  cases y with
+  | num n => cases n <;> simp_all [doYield, registerSelect, List.getElem?_modify, wkL, Y.isSend]
+  | block => simp_all [doYield, List.getElem?_modify, wkL]
+  | sleep d =>
+    cases d with
+    | none => simp_all [doYield, List.getElem?_modify, wkL]
+    | some d =>
+      simp only [doYield] at hw ⊢
+      split at hw
+      · rename_i hc; simp only [hc, if_true] at ⊢
+        unfold fastSchedule at hw ⊢
+        split at hw <;> simp_all [List.getElem?_modify, wkL]
+      · rename_i hc; simp only [hc, if_false] at ⊢
+        simp_all [registerSelect, List.getElem?_modify, wkL]
+  | sleepAbs w =>
+    simp only [doYield] at hw ⊢
+    split at hw
+    · rename_i hc; simp only [hc, if_true] at ⊢
+      unfold fastSchedule at hw ⊢
+      split at hw <;> simp_all [List.getElem?_modify, wkL]
+    · rename_i hc; simp only [hc, if_false] at ⊢
+      simp_all [registerSelect, List.getElem?_modify, wkL]
+  | select a b c to => simp_all [doYield, registerSelect, List.getElem?_modify, wkL]
+  | recv fd to => simp_all [doYield, registerSelect, List.getElem?_modify, wkL, Rf.isSend]
+  | send fd len to bs => simp_all [doYield, registerSelect, List.getElem?_modify, wkL, Y.isSend]
+  | exit => simp_all [doYield, List.getElem?_modify, wkL]
+  | raise n => simp_all [doYield, List.getElem?_modify, wkL]
+  | again k2 c =>
+    simp only [doYield] at hw ⊢
+    unfold fastSchedule at hw ⊢
+    split at hw <;> simp_all [List.getElem?_modify, wkL, List.getElem?_append_left]
+  | cancel j => simp_all [doYield, cancelTimer, List.getElem?_modify, wkL]
+
+
+theorem resumeGen_top_stop (cfg : Cfg) (s : St) (t : Nat) (tk : Task) (k : Nat) (prog : List Y) (r : Recv) (raw : Val)
+    (htk : s.tasks[t]? = some tk) (hkind : tk.kind = .top k) (hprog : cfg.progs[k]? = some prog)
+    (hy : genStep s.timers.length prog tk.pc r = .stop) : stL (resumeGen cfg s t tk r raw).tasks t = some .done := by
+  obtain ⟨kind, pc, rv, re, rf, st, wake, prio⟩ := tk
+  simp only at hkind hy
+  subst hkind
+  simp [resumeGen, hprog, hy, topOut, setStatus, stL, List.getElem?_modify, htk]
+
+theorem cycleExec_abort (cfg : Cfg) (s s1 : St) (t : Nat) (tk : Task) (hrun : s.running = some t)
+    (htk : s.tasks[t]? = some tk) (hpre : execPre cfg { s with running := none } t tk = (.abort, s1)) :
+    cycleExec cfg s = s1 := by
+  have htk' : ({ s with running := none } : St).tasks[t]? = some tk := htk
+  simp only [cycleExec, hrun, htk', hpre]
+
+/-- for the top-level tasks that exist from the start (`t < n0`): the noted wake time is the one the last yield asked for, and
+    every recorded resume carries the wake time its preceding yield asked for (`Send` excepted: it re-registers itself) -/
+structure WQ (cfg : Cfg) (n0 : Nat) (s : St) : Prop where
+  len : n0 ≤ s.tasks.length
+  task : ∀ (t : Nat) (tk : Task) (k : Nat) (prog : List Y) (i : Nat), t < n0 → s.tasks[t]? = some tk → tk.kind = .top k →
+    cfg.progs[k]? = some prog → tk.st = .live → tk.pc = i + 1 →
+    ∃ y, prog[i]? = some y ∧ (∀ rf, tk.rf = some rf → rf.isSend = true → y.isSend = true) ∧
+      (y.isSend = false → ∃ tm r raw w, Ev.step t i tm r raw w ∈ s.trace ∧ tk.wake = reqWake tm y)
+  ev : ∀ (t i tm : Nat) (r : Recv) (raw : Val) (wf : Option (Nat × Bool)) (k : Nat) (prog : List Y) (y : Y), t < n0 →
+    Ev.step t (i + 1) tm r raw wf ∈ s.trace → kdL s.tasks t = some (.top k) → cfg.progs[k]? = some prog → prog[i]? = some y →
+    y.isSend = false → ∃ tm0 r0 raw0 w0, Ev.step t i tm0 r0 raw0 w0 ∈ s.trace ∧ wf = reqWake tm0 y
+
+theorem WQ.same {cfg n0} {s s' : St} (h : WQ cfg n0 s) (h1 : s'.tasks = s.tasks) (h2 : s'.trace = s.trace) : WQ cfg n0 s' :=
+  ⟨by rw [h1]; exact h.len,
+   fun t tk k prog i a b c d e f => by rw [h1] at b; rw [h2]; exact h.task t tk k prog i a b c d e f,
+   fun t i tm r raw wf k prog y a b c d e f => by rw [h2] at b ⊢; rw [h1] at c; exact h.ev t i tm r raw wf k prog y a b c d e f⟩
+
+theorem ctl2_of_get {l l' : List Task} {u : Nat} {tk' : Task} (h : (l'.map ctl2)[u]? = (l.map ctl2)[u]?) (hk : l'[u]? = some tk') :
+    ∃ tk, l[u]? = some tk ∧ ctl2 tk = ctl2 tk' := by
+  simp only [List.getElem?_map, hk, Option.map_some] at h
+  cases hl : l[u]? with
+  | none => simp [hl] at h
+  | some tk => simp [hl] at h; exact ⟨tk, rfl, h.symm⟩
+
+/-- one step of task `t`: everybody else keeps kind, pc, status, wake and return function, the trace grows by events of `t` -/
+theorem WQ.step {cfg n0} {s s' : St} (h : WQ cfg n0 s) (t : Nat) (hlen : s.tasks.length ≤ s'.tasks.length)
+    (hctl : CtlExt t s.tasks s'.tasks) (hkt : kdL s'.tasks t = kdL s.tasks t)
+    (ext : List Ev) (htr : s'.trace = s.trace ++ ext) (hext : ∀ e ∈ ext, evTid e = t)
+    (ht_task : ∀ (tk : Task) (k : Nat) (prog : List Y) (i : Nat), t < n0 → s'.tasks[t]? = some tk → tk.kind = .top k →
+      cfg.progs[k]? = some prog → tk.st = .live → tk.pc = i + 1 →
+      ∃ y, prog[i]? = some y ∧ (∀ rf, tk.rf = some rf → rf.isSend = true → y.isSend = true) ∧
+        (y.isSend = false → ∃ tm r raw w, Ev.step t i tm r raw w ∈ s'.trace ∧ tk.wake = reqWake tm y))
+    (ht_ev : ∀ (i tm : Nat) (r : Recv) (raw : Val) (wf : Option (Nat × Bool)) (k : Nat) (prog : List Y) (y : Y), t < n0 →
+      Ev.step t (i + 1) tm r raw wf ∈ ext → kdL s.tasks t = some (.top k) → cfg.progs[k]? = some prog → prog[i]? = some y →
+      y.isSend = false → ∃ tm0 r0 raw0 w0, Ev.step t i tm0 r0 raw0 w0 ∈ s'.trace ∧ wf = reqWake tm0 y) :
+    WQ cfg n0 s' := by
+  have hsub : ∀ e, e ∈ s.trace → e ∈ s'.trace := fun e he => by rw [htr]; exact List.mem_append_left _ he
+  have hkd : ∀ u, u < n0 → kdL s'.tasks u = kdL s.tasks u := by
+    intro u hu
+    by_cases e : u = t
+    · subst e; exact hkt
+    · have := hctl u e (Nat.lt_of_lt_of_le hu h.len)
+      simp only [List.getElem?_map] at this
+      simp only [kdL]
+      cases h1 : s'.tasks[u]? <;> cases h2 : s.tasks[u]? <;> simp [h1, h2, ctl2] at this ⊢
+      exact this.1
+  refine ⟨Nat.le_trans h.len hlen, ?_, ?_⟩
+  · intro u tk' k prog i hu htk' hkind hprog hlive hpc
+    by_cases e : u = t
+    · subst e; exact ht_task tk' k prog i hu htk' hkind hprog hlive hpc
+    · obtain ⟨tk, htk, hc⟩ := ctl2_of_get (hctl u e (Nat.lt_of_lt_of_le hu h.len)) htk'
+      simp only [ctl2, Prod.mk.injEq] at hc
+      obtain ⟨c1, c2, c3, c4, _, c6⟩ := hc
+      obtain ⟨y, hy, hrf, hw⟩ := h.task u tk k prog i hu htk (by rw [c1]; exact hkind) hprog (by rw [c3]; exact hlive) (by rw [c2]; exact hpc)
+      refine ⟨y, hy, fun rf h1 h2 => hrf rf (by rw [c6]; exact h1) h2, fun hns => ?_⟩
+      obtain ⟨tm, r, raw, w, hm, hwk⟩ := hw hns
+      exact ⟨tm, r, raw, w, hsub _ hm, by rw [← c4]; exact hwk⟩
+  · intro u i tm r raw wf k prog y hu hm hkind hprog hy hns
+    rw [htr] at hm
+    rcases List.mem_append.mp hm with hm | hm
+    · obtain ⟨tm0, r0, raw0, w0, h1, h2⟩ := h.ev u i tm r raw wf k prog y hu hm (by rw [← hkd u hu]; exact hkind) hprog hy hns
+      exact ⟨tm0, r0, raw0, w0, hsub _ h1, h2⟩
+    · have := hext _ hm
+      simp only [evTid] at this
+      subst this
+      exact ht_ev i tm r raw wf k prog y hu hm (by rw [← hkd u hu]; exact hkind) hprog hy hns
+
+
+theorem WQ.idle {cfg n0} {s : St} (h : WQ cfg n0 s) : WQ cfg n0 (idleStep cfg s) := by
+  have hf := HubFr.idleStep cfg s
+  have hlen : (idleStep cfg s).tasks.length = s.tasks.length := by
+    have := congrArg List.length hf.tasks; simpa using this
+  refine ⟨by rw [hlen]; exact h.len, ?_, ?_⟩
+  · intro u tk' k prog i hu htk' hkind hprog hlive hpc
+    obtain ⟨tk, htk, he⟩ := get_of_map_eq hf.tasks htk'
+    simp only [eraseRv, Task.mk.injEq] at he
+    obtain ⟨e1, e2, _, e4, e5, e6, e7, _⟩ := he
+    rw [hf.trace, ← e7, ← e5]
+    exact h.task u tk k prog i hu htk (by rw [e1]; exact hkind) hprog (by rw [e6]; exact hlive) (by rw [e2]; exact hpc)
+  · intro u i tm r raw wf k prog y hu hm hkind hprog hy hns
+    rw [hf.trace] at hm ⊢
+    refine h.ev u i tm r raw wf k prog y hu hm ?_ hprog hy hns
+    have e : ∀ l : List Task, kdL l u = ((l.map eraseRv)[u]?).map (·.kind) := by
+      intro l; simp only [kdL, List.getElem?_map]; cases l[u]? <;> rfl
+    rw [e, ← hf.tasks, ← e]; exact hkind
+
+theorem WQ.cycle {cfg n0} {s : St} (hi : Inv s) (hrun : s.running = none) (h : WQ cfg n0 s) : WQ cfg n0 (Pox.Recoco.cycle cfg s) := by
+  cases hl : lottery s.tasks s.draws s.ready with
+  | none =>
+    have e : Pox.Recoco.cycle cfg s = { s with cycles := s.cycles + 1 } := by
+      simp [Pox.Recoco.cycle, cyclePop, hrun, hl, Pox.Recoco.cycleExec]
+    rw [e]; exact h.same rfl rfl
+  | some res =>
+    obtain ⟨t, rest, ds'⟩ := res
+    rw [cycle_pop cfg s t rest ds' hrun hl]
+    have hp : WQ cfg n0 (popped s t rest ds') := h.same rfl rfl
+    have hmem : t ∈ s.ready := (lottery_perm _ _ _ hl).mem_iff.mp List.mem_cons_self
+    have hcf := CycFr.cycleExec cfg (popped s t rest ds') t rfl
+    obtain ⟨kext, hkp⟩ := KP.cycleExec cfg (popped s t rest ds')
+    have hlive := hi.ready_live hmem
+    obtain ⟨tk, htk⟩ := stL_some hlive
+    have hst : tk.st = .live := by simpa [stL, htk] using hlive
+    have htkp : (popped s t rest ds').tasks[t]? = some tk := htk
+    have hkt : kdL (Pox.Recoco.cycleExec cfg (popped s t rest ds')).tasks t = kdL (popped s t rest ds').tasks t := by
+      have e : ∀ (m : List Task) (u : Nat), kdL m u = (m.map (·.kind))[u]? := by intro m u; simp [kdL]
+      rw [e, e, hkp, List.getElem?_append_left]
+      simpa using (List.getElem?_eq_some_iff.mp htkp).1
+    by_cases hk : ∃ k, tk.kind = .top k
+    · obtain ⟨k, hk⟩ := hk
+      have hkd0 : kdL (popped s t rest ds').tasks t = some (.top k) := by rw [kdL_of_get htkp, hk]
+      cases hpre : execPre cfg { popped s t rest ds' with running := none } t tk with
+      | mk x s1 =>
+        cases x with
+        | abort =>
+          have hce := cycleExec_abort cfg (popped s t rest ds') s1 t tk rfl htkp hpre
+          obtain ⟨⟨rf0, hrf0, hs0⟩, tk1, htk1, c1, c2, c3, rf1, hrf1, hs1⟩ := execPre_abort cfg { popped s t rest ds' with running := none } s1 t tk htkp hpre
+          have htr : s1.trace = (popped s t rest ds').trace := by
+            have := execPre_trace cfg { popped s t rest ds' with running := none } t tk; rw [hpre] at this; exact this
+          refine hp.step t hcf.len hcf.ctl hkt [] (by rw [hce, htr]; simp) (by simp) ?_ (by simp)
+          intro tk' k' prog i hu htk' hkind hprog hlive' hpc
+          rw [hce, htk1] at htk'; cases htk'
+          obtain ⟨y, hy, hrf, _⟩ := hp.task t tk k' prog i hu htkp (by rw [← c1]; exact hkind) hprog hst (by rw [← c2]; exact hpc)
+          have hsend := hrf rf0 hrf0 hs0
+          exact ⟨y, hy, fun _ _ _ => hsend, fun hns => by rw [hsend] at hns; cases hns⟩
+        | raised e =>
+          have hce := cycleExec_raised cfg (popped s t rest ds') s1 t tk e rfl htkp hpre
+          have hs := execPre_same cfg { popped s t rest ds' with running := none } t tk htkp _ _ hpre (by simp)
+          refine hp.step t hcf.len hcf.ctl hkt [] (by rw [hce]; simp [hs.trace]) (by simp) ?_ (by simp)
+          intro tk' k' prog i hu htk' hkind hprog hlive' hpc
+          rw [hce] at htk'
+          simp only [setStatus, setTask_tasks, List.getElem?_modify] at htk'
+          cases h1 : s1.tasks[t]? with
+          | none => simp [h1] at htk'
+          | some q => simp [h1] at htk'; subst htk'; cases hlive'
+        | resume r =>
+          have hs := execPre_same cfg { popped s t rest ds' with running := none } t tk htkp _ _ hpre (by simp)
+          obtain ⟨tk1, htk1, hrf1⟩ := execPre_resume_rf cfg { popped s t rest ds' with running := none } s1 t tk r htkp hpre
+          have hself := hs.self
+          simp only [htk1, Option.map_some, Option.some.injEq, Prod.mk.injEq] at hself
+          obtain ⟨c1, c2, c3, c4, _⟩ := hself
+          have hce := cycleExec_resume cfg (popped s t rest ds') s1 t tk tk1 r rfl htkp hpre htk1
+          have hk1 : tk1.kind = .top k := by rw [c1]; exact hk
+          have htrace := resumeGen_trace_nt cfg s1 t tk1 r tk.rv (by intro j; rw [hk1]; simp)
+          have hnow : s1.now = s.now := hs.now
+          have htr1 : s1.trace = s.trace := hs.trace
+          refine hp.step t hcf.len hcf.ctl hkt [.step t tk1.pc s1.now r tk.rv tk1.wake] (by rw [hce, htrace, htr1]; rfl) (by simp [evTid]) ?_ ?_
+          · intro tk' k' prog i hu htk' hkind hprog hlive' hpc
+            rw [hce] at htk'
+            have hkk : k' = k := by
+              have := hkt
+              rw [hce, kdL_of_get htk', hkd0, hkind] at this
+              simpa using this
+            subst hkk
+            cases hg : genStep s1.timers.length prog tk1.pc r with
+            | stop =>
+              have := resumeGen_top_stop cfg s1 t tk1 k' prog r tk.rv htk1 hk1 hprog hg
+              simp [stL, htk', hlive'] at this
+            | raise e =>
+              have := (resumeGen_raise cfg s1 t tk1 k' prog e r tk.rv htk1 hk1 hprog hg).2.2.2.2.2.2.2.2.2.1
+              simp [stL, htk', hlive'] at this
+            | yield y =>
+              obtain ⟨tk'', h1, _, h3, h4, h5⟩ := resumeGen_top_yield cfg s1 t tk1 k' prog y r tk.rv htk1 hk1 hprog hrf1 hg
+              rw [htk'] at h1; cases h1
+              have hi' : i = tk1.pc := by omega
+              subst hi'
+              refine ⟨y, genStep_yield_get hg, h5, fun _ => ⟨s1.now, r, tk.rv, tk1.wake, ?_, h4⟩⟩
+              rw [hce, htrace]; simp
+          · intro i tm r' raw wf k' prog y hu hm hkind hprog hy hns
+            simp only [List.mem_singleton, Ev.step.injEq] at hm
+            obtain ⟨_, hpc, _, _, _, hwf⟩ := hm
+            obtain ⟨y', hy', _, hw⟩ := hp.task t tk k' prog i hu htkp (by rw [hkd0] at hkind; cases hkind; exact hk) hprog hst (by rw [← c2]; exact hpc.symm)
+            rw [hy] at hy'; cases hy'
+            obtain ⟨tm0, r0, raw0, w0, h1, h2⟩ := hw hns
+            refine ⟨tm0, r0, raw0, w0, ?_, by rw [hwf, c4]; exact h2⟩
+            rw [hce, htrace, htr1]; exact List.mem_append_left _ h1
+    · obtain ⟨ext, he, hx⟩ := cycleExec_trace_ext cfg (popped s t rest ds') t rfl
+      have hnt : ∀ k, kdL (popped s t rest ds').tasks t ≠ some (.top k) := by
+        intro k hkk; rw [kdL_of_get htkp] at hkk; exact hk ⟨k, by simpa using hkk⟩
+      refine hp.step t hcf.len hcf.ctl hkt ext he hx ?_ ?_
+      · intro tk' k' prog i hu htk' hkind _ _ _
+        exact absurd (by rw [← hkt, kdL_of_get htk', hkind]) (hnt k')
+      · intro i tm r raw wf k' prog y hu hm hkind _ _ _
+        exact absurd hkind (hnt k')
+
+
+theorem WQ.iter {cfg n0} {s : St} (hi : Inv s) (hrun : s.running = none) (h : WQ cfg n0 s) : WQ cfg n0 (Pox.Recoco.iter cfg s) := by
+  unfold Pox.Recoco.iter
+  have h1 := h.idle (cfg := cfg)
+  have hi1 := hi.idleStep cfg
+  have hr1 : (idleStep cfg s).running = none := (HubFr.idleStep cfg s).running.trans hrun
+  split
+  · exact h
+  · simp only []
+    split
+    · exact h1
+    · exact h1.cycle hi1 hr1
+
+theorem WQ.run {cfg n0} : ∀ (n : Nat) {s : St}, Inv s → s.running = none → WQ cfg n0 s → WQ cfg n0 (Pox.Recoco.run cfg n s)
+  | 0, _, _, _, h => h
+  | n + 1, s, hi, hrun, h => WQ.run n (hi.iter cfg) (iter_running cfg s hrun) (h.iter hi hrun)
+
+theorem initSt_tasks_length (t0 : Nat) (tasks : List Nat) (timers : List TimerCfg) (ss rs : List (Option Nat)) (ps ds : List Nat) :
+    (initSt t0 tasks timers ss rs ps ds).tasks.length = tasks.length + timers.length := by
+  have := congrArg List.length (initSt_view (fun _ => ()) (fun _ _ => rfl) t0 tasks timers ss rs ps ds)
+  simpa using this
+
+theorem WQ.init (cfg : Cfg) (t0 : Nat) (tasks : List Nat) (timers : List TimerCfg) (ss rs : List (Option Nat)) (ps ds : List Nat) :
+    WQ cfg tasks.length (initSt t0 tasks timers ss rs ps ds) := by
+  have hpc : ∀ (t : Nat) (tk : Task), (initSt t0 tasks timers ss rs ps ds).tasks[t]? = some tk → tk.pc = 0 := by
+    intro t tk h0
+    have h : ((initSt t0 tasks timers ss rs ps ds).tasks.map (·.pc))[t]? = some tk.pc := by simp [h0]
+    rw [initSt_view (·.pc) (fun _ _ => rfl)] at h
+    simp only [List.getElem?_append, List.length_map, List.getElem?_map] at h
+    split at h
+    · cases hx : tasks[t]? with
+      | none => simp [hx] at h
+      | some _ => simp [hx] at h; exact h.symm
+    · cases hx : (List.range timers.length)[t - tasks.length]? with
+      | none => simp [hx] at h
+      | some _ => simp [hx] at h; exact h.symm
+  refine ⟨by rw [initSt_tasks_length]; omega, ?_, ?_⟩
+  · intro t tk k prog i _ htk _ _ _ hp
+    have := hpc t tk htk; omega
+  · intro t i tm r raw wf k prog y _ hm
+    simp [initSt] at hm
+
+/-- **wake_is_requested, trace level.**  In every reachable state: if the trace contains the resume number `i+1` of a top-level
+    task whose yield number `i` is `y` (anything but a `Send`), then it also contains resume number `i`, at some time `tm0`, and
+    the wake time recorded in resume `i+1` is exactly what `y` asks for at `tm0`. -/
+theorem wake_requested_trace (cfg : Cfg) (t0 : Nat) (tasks : List Nat) (timers : List TimerCfg) (ss rs : List (Option Nat)) (ps ds : List Nat)
+    (n : Nat) (t i tm : Nat) (r : Recv) (raw : Val) (wf : Option (Nat × Bool)) (k : Nat) (prog : List Y) (y : Y)
+    (ht : tasks[t]? = some k) (hprog : cfg.progs[k]? = some prog) (hy : prog[i]? = some y) (hns : y.isSend = false)
+    (hm : Ev.step t (i + 1) tm r raw wf ∈ (Pox.Recoco.run cfg n (initSt t0 tasks timers ss rs ps ds)).trace) :
+    ∃ tm0 r0 raw0 w0, Ev.step t i tm0 r0 raw0 w0 ∈ (Pox.Recoco.run cfg n (initSt t0 tasks timers ss rs ps ds)).trace ∧
+      wf = reqWake tm0 y := by
+  have hw := WQ.run (cfg := cfg) n (Inv.init t0 tasks timers ss rs ps ds) rfl (WQ.init cfg t0 tasks timers ss rs ps ds)
+  have hlt : t < tasks.length := (List.getElem?_eq_some_iff.mp ht).1
+  refine hw.ev t i tm r raw wf k prog y hlt hm ?_ hprog hy hns
+  refine kind_stable cfg n _ t _ ?_
+  have e : kdL (initSt t0 tasks timers ss rs ps ds).tasks t = ((initSt t0 tasks timers ss rs ps ds).tasks.map (·.kind))[t]? := by simp [kdL]
+  rw [e, initSt_view (·.kind) (fun _ _ => rfl), List.getElem?_append_left (by simpa using hlt)]
+  simp [ht]
+
+
+/-! ## Part 13: no lost wake-up for a ready descriptor -/
+
+theorem dictGet_dictSet_self (m : List (Nat × Nat)) (k v : Nat) : dictGet (dictSet m k v) k = some v := by
+  induction m with
+  | nil => simp [dictSet, dictGet]
+  | cons a r ih =>
+    obtain ⟨k', v'⟩ := a
+    simp only [dictSet]
+    split
+    · simp [dictGet]
+    · rename_i h; simp [dictGet, h, ih]
+
+theorem dictGet_dictSet_ne (m : List (Nat × Nat)) {k f : Nat} (v : Nat) (h : k ≠ f) : dictGet (dictSet m k v) f = dictGet m f := by
+  induction m with
+  | nil => simp [dictSet, dictGet, h]
+  | cons a r ih =>
+    obtain ⟨k', v'⟩ := a
+    simp only [dictSet]
+    split
+    · rename_i e; subst e; simp [dictGet, h]
+    · simp only [dictGet]; split <;> simp [ih]
+
+theorem dictFold_get (t f : Nat) : ∀ (fds : List Nat) (m : List (Nat × Nat)),
+    dictGet (fds.foldl (fun m i => dictSet m i t) m) f = if f ∈ fds then some t else dictGet m f
+  | [], m => by simp
+  | i :: is, m => by
+    rw [List.foldl_cons, dictFold_get t f is]
+    by_cases h1 : f ∈ is
+    · simp [h1]
+    · by_cases h2 : i = f
+      · subst h2; simp [h1, dictGet_dictSet_self]
+      · have : ¬ f = i := fun e => h2 e.symm
+        simp [h1, this, dictGet_dictSet_ne _ _ h2]
+
+theorem dictGet_some_key {m : List (Nat × Nat)} {f t : Nat} (h : dictGet m f = some t) : f ∈ m.map (·.1) := by
+  induction m with
+  | nil => simp [dictGet] at h
+  | cons a r ih =>
+    obtain ⟨k', v'⟩ := a
+    simp only [dictGet] at h
+    split at h
+    · rename_i e; simp [e]
+    · simp only [List.map_cons, List.mem_cons]; exact .inr (ih h)
+
+theorem scanEntry_rl (now : Nat) (sc : Scan) (e : HubEntry) :
+    (scanEntry now sc e).rl = if expiredP now e then sc.rl else e.rl.foldl (fun m i => dictSet m i e.tid) sc.rl := by
+  unfold scanEntry expiredP
+  cases hto : e.tto with
+  | none => simp [addFds]
+  | some w =>
+    simp only []
+    by_cases h : w ≤ now
+    · simp [h]
+    · simp only [h, if_false, decide_false, Bool.false_eq_true]
+      cases sc.timeout with
+      | none => simp [addFds]
+      | some cur => simp only [addFds]; split <;> rfl
+
+/-- the `rl` dictionary after the scan: a descriptor that a non-expired entry waits on, and that only entries of task `tid` wait on -/
+theorem scan_rl_get (now f tid : Nat) : ∀ (l : List HubEntry) (sc : Scan),
+    (∀ e' ∈ l, f ∈ e'.rl → e'.tid = tid) →
+    (dictGet sc.rl f = some tid ∨ ∃ e ∈ l, f ∈ e.rl ∧ expiredP now e = false) →
+    dictGet (l.foldl (scanEntry now) sc).rl f = some tid
+  | [], sc, _, h => by
+    rcases h with h | ⟨e, he, _⟩
+    · exact h
+    · cases he
+  | e :: r, sc, hu, h => by
+    rw [List.foldl_cons]
+    refine scan_rl_get now f tid r _ (fun e' he' => hu e' (List.mem_cons_of_mem _ he')) ?_
+    rw [scanEntry_rl, ]
+    by_cases hx : expiredP now e = true
+    · simp only [hx, if_true]
+      rcases h with h | ⟨e0, he0, hf0, hx0⟩
+      · exact .inl h
+      · rcases List.mem_cons.mp he0 with rfl | h1
+        · rw [hx] at hx0; cases hx0
+        · exact .inr ⟨e0, h1, hf0, hx0⟩
+    · simp only [hx, if_false, Bool.false_eq_true]
+      rw [dictFold_get]
+      by_cases hf : f ∈ e.rl
+      · simp only [hf, if_true]
+        rw [hu e List.mem_cons_self hf]; exact .inl rfl
+      · simp only [hf, if_false]
+        rcases h with h | ⟨e0, he0, hf0, hx0⟩
+        · exact .inl h
+        · rcases List.mem_cons.mp he0 with rfl | h1
+          · exact absurd hf0 hf
+          · exact .inr ⟨e0, h1, hf0, hx0⟩
+
+theorem vselect_ready_now (env : Env) (now : Nat) (rk wk xk : List Nat) (to : Nat) (p ht : Bool) (f rt : Nat)
+    (hf : f ∈ rk) (hrt : fdTime env.rAt f = some rt) (hle : rt ≤ now) :
+    f ∈ (vselect env now rk wk xk to p ht).ro := by
+  have hm : f ∈ readyAt env.rAt now rk := by
+    unfold readyAt
+    exact List.mem_filter.mpr ⟨hf, by simp [hrt, hle]⟩
+  unfold vselect
+  simp only []
+  rw [if_pos (.inr (.inl (List.ne_nil_of_mem hm)))]
+  exact hm
+
+theorem retsLoop_mono {m : List (Nat × Nat)} {which : Nat} : ∀ (is : List Nat) (rets rets' : Rets),
+    retsLoop m which is rets = some rets' →
+    (∀ t ∈ rets.map (·.1), t ∈ rets'.map (·.1)) ∧ (∀ i ∈ is, ∀ t, dictGet m i = some t → t ∈ rets'.map (·.1))
+  | [], rets, rets', h => by
+    simp only [retsLoop, Option.some.injEq] at h; subst h
+    exact ⟨fun _ h => h, fun _ hi => by cases hi⟩
+  | i :: is, rets, rets', h => by
+    simp only [retsLoop] at h
+    split at h
+    · cases h
+    · rename_i t ht
+      obtain ⟨h1, h2⟩ := retsLoop_mono is _ rets' h
+      have hk : ∀ u ∈ rets.map (·.1), u ∈ (retsAdd rets t which i).map (·.1) := by
+        intro u hu; rw [retsAdd_keys]; split
+        · exact hu
+        · exact List.mem_append_left _ hu
+      have ht' : t ∈ (retsAdd rets t which i).map (·.1) := by
+        rw [retsAdd_keys]; split
+        · assumption
+        · exact List.mem_append_right _ List.mem_cons_self
+      refine ⟨fun u hu => h1 u (hk u hu), ?_⟩
+      intro j hj u hu
+      rcases List.mem_cons.mp hj with rfl | hj
+      · rw [ht] at hu; cases hu; exact h1 _ ht'
+      · exact h2 j hj u hu
+
+theorem returnAll_ready : ∀ (rets : Rets) {s : St}, Inv s → s.crashed = false → (rets.map (·.1)).Nodup →
+    (∀ t ∈ rets.map (·.1), t ∈ hubTids s) → ∀ t ∈ rets.map (·.1), t ∈ (returnAll s rets).ready
+  | [], _, _, _, _, _ => fun _ h => by cases h
+  | (t, (a, b, c)) :: r, s, hi, hc, hn, hm => by
+    simp only [List.map_cons] at hn hm
+    have hn' := List.nodup_cons.mp hn
+    have htm := hm t List.mem_cons_self
+    have hnr := hi.not_ready_of_hub htm
+    have hc' : (hubDelReturn s t (.sel a b c)).crashed = false := by rw [hubDelReturn_nc _ htm hnr]; exact hc
+    have ih := returnAll_ready r (hi.hubDelReturn t (.sel a b c)) hc' hn'.2
+      (fun u hu => hubTids_hubDelReturn _ (hm u (List.mem_cons_of_mem _ hu)) (fun e => hn'.1 (e ▸ hu)))
+    simp only [returnAll, List.map_cons]
+    rw [if_neg (by simp [hc'])]
+    intro u hu
+    rcases List.mem_cons.mp hu with rfl | h
+    · exact returnAll_ready_mono r _ _ (hubDelReturn_ready_self _ htm hnr)
+    · exact ih u h
+
+theorem hubFinish_ready_fd (sc : Scan) (r : SelRes) {s2 : St} (hi2 : Inv s2) (hc2 : s2.crashed = false)
+    (hro : ∀ i ∈ r.ro, i ∈ sc.rl.map (·.1)) (hwo : ∀ i ∈ r.wo, i ∈ sc.wl.map (·.1)) (hxo : ∀ i ∈ r.xo, i ∈ sc.xl.map (·.1))
+    (hk2 : ∀ p, p ∈ sc.rl ∨ p ∈ sc.wl ∨ p ∈ sc.xl → p.2 ∈ hubTids s2)
+    (f tid : Nat) (hget : dictGet sc.rl f = some tid) (hfro : f ∈ r.ro) : tid ∈ (hubFinish sc r s2).ready := by
+  have hne : r.ro ≠ [] := List.ne_nil_of_mem hfro
+  unfold Pox.Recoco.hubFinish
+  rw [if_neg (by simp [hne])]
+  have hp := hubPong_nc r hi2
+  have hi3 := hi2.hubPong r
+  have hc3 : (hubPong r s2).crashed = false := by rw [hp.1]; exact hc2
+  unfold Pox.Recoco.hubDispatch
+  rw [if_neg (by simp [hc3]), if_neg (by simp [hne])]
+  obtain ⟨r1, h1⟩ := retsLoop_some (m := sc.rl) (which := 0) r.ro [] hro
+  obtain ⟨r2, h2⟩ := retsLoop_some (m := sc.wl) (which := 1) r.wo r1 hwo
+  obtain ⟨r3, h3⟩ := retsLoop_some (m := sc.xl) (which := 2) r.xo r2 hxo
+  have hK : ∀ p, p ∈ sc.rl ∨ p ∈ sc.wl ∨ p ∈ sc.xl → p.2 ∈ hubTids (hubPong r s2) := fun p hp' => hp.2 _ (hk2 p hp')
+  have k1 := retsLoop_keys (K := fun t => t ∈ hubTids (hubPong r s2)) (fun p hp => hK p (.inl hp)) _ _ _ h1 (by simp) (by simp)
+  have k2 := retsLoop_keys (K := fun t => t ∈ hubTids (hubPong r s2)) (fun p hp => hK p (.inr (.inl hp))) _ _ _ h2 k1.1 k1.2
+  have k3 := retsLoop_keys (K := fun t => t ∈ hubTids (hubPong r s2)) (fun p hp => hK p (.inr (.inr hp))) _ _ _ h3 k2.1 k2.2
+  simp only [h1, h2, h3, Option.bind_some]
+  have m1 := (retsLoop_mono _ _ _ h1).2 f hfro tid hget
+  have m2 := (retsLoop_mono _ _ _ h2).1 _ m1
+  have m3 := (retsLoop_mono _ _ _ h3).1 _ m2
+  exact returnAll_ready r3 hi3 hc3 k3.1 k3.2 _ m3
+
+/-- **no lost wake-up (ready descriptor).**  When the scheduler goes idle: a hub entry that waits for descriptor `f` to become
+    readable, `f` being readable now and no other task waiting on `f` (a later registration for the same descriptor shadows an
+    earlier one in `_select`'s `rl` dictionary), is handed back in this very hub pass. -/
+theorem fd_ready_returns (cfg : Cfg) {s : St} (hi : Inv s) (hc : s.crashed = false) (hr : s.ready = [])
+    (e : HubEntry) (he : e ∈ s.hub) (f : Nat) (hf : f ∈ e.rl) (huniq : ∀ e' ∈ s.hub, f ∈ e'.rl → e'.tid = e.tid)
+    (rt : Nat) (hrt : fdTime cfg.env.rAt f = some rt) (hle : rt ≤ s.now) : e.tid ∈ (idleStep cfg s).ready := by
+  by_cases hx : expiredP s.now e = true
+  · -- its timeout has expired as well: it is returned as expired
+    unfold expiredP at hx
+    cases hw : e.tto with
+    | none => simp [hw] at hx
+    | some w => simp [hw] at hx; exact expired_returns cfg hi hc hr e he w hw hx
+  · have hx' : expiredP s.now e = false := by simpa using hx
+    have hsc := hubScan_ok s
+    obtain ⟨hnd, hmem, hlv⟩ := hubScan_expired_props hi
+    have hexp := returnExpired_nc (hubScan s).expired hi hnd hmem
+    have hi1 := Inv.returnExpired (hubScan s).expired hi
+    have keep : ∀ e ∈ s.hub, (∀ w, e.tto = some w → s.now < w) → e.tid ∈ hubTids (Pox.Recoco.returnExpired s (hubScan s).expired) :=
+      fun e he hl => hexp.2 e.tid (List.mem_map_of_mem he) (hlv e he hl)
+    have hget : dictGet (hubScan s).rl f = some e.tid := by
+      unfold hubScan
+      exact scan_rl_get s.now f e.tid s.hub {} huniq (.inr ⟨e, he, hf, hx'⟩)
+    have hkey := dictGet_some_key hget
+    unfold idleStep
+    rw [if_pos hr]
+    unfold Pox.Recoco.hubSelect
+    simp only []
+    rw [if_neg (by rw [hexp.1, hc]; simp)]
+    have hnow : (Pox.Recoco.returnExpired s (hubScan s).expired).now = s.now := returnExpired_now _ _
+    have hv := vselect_sub cfg.env (Pox.Recoco.returnExpired s (hubScan s).expired).now ((hubScan s).rl.map (·.1))
+      ((hubScan s).wl.map (·.1)) ((hubScan s).xl.map (·.1)) (hubTimeout (hubScan s))
+      (decide (0 < (Pox.Recoco.returnExpired s (hubScan s).expired).pings)) (hubScan s).timeoutTask.isSome
+    have hfro := vselect_ready_now cfg.env (Pox.Recoco.returnExpired s (hubScan s).expired).now ((hubScan s).rl.map (·.1))
+      ((hubScan s).wl.map (·.1)) ((hubScan s).xl.map (·.1)) (hubTimeout (hubScan s))
+      (decide (0 < (Pox.Recoco.returnExpired s (hubScan s).expired).pings)) (hubScan s).timeoutTask.isSome f rt hkey hrt (by rw [hnow]; exact hle)
+    refine hubFinish_ready_fd _ _ ?_ ?_ hv.1 hv.2.1 hv.2.2 ?_ f e.tid hget hfro
+    · held hi1
+    · show (Pox.Recoco.returnExpired s (hubScan s).expired).crashed = false
+      rw [hexp.1]; exact hc
+    · intro p hp
+      obtain ⟨e', he', het, _, hl⟩ := hsc.fds p hp
+      have := keep e' he' hl
+      rw [het] at this
+      simpa [hubTids] using this
+
+theorem scanEntry_wl (now : Nat) (sc : Scan) (e : HubEntry) :
+    (scanEntry now sc e).wl = if expiredP now e then sc.wl else e.wl.foldl (fun m i => dictSet m i e.tid) sc.wl := by
+  unfold scanEntry expiredP
+  cases hto : e.tto with
+  | none => simp [addFds]
+  | some w =>
+    simp only []
+    by_cases h : w ≤ now
+    · simp [h]
+    · simp only [h, if_false, decide_false, Bool.false_eq_true]
+      cases sc.timeout with
+      | none => simp [addFds]
+      | some cur => simp only [addFds]; split <;> rfl
+
+/-- the `wl` dictionary after the scan: a descriptor that a non-expired entry waits on, and that only entries of task `tid` wait on -/
+theorem scan_wl_get (now f tid : Nat) : ∀ (l : List HubEntry) (sc : Scan),
+    (∀ e' ∈ l, f ∈ e'.wl → e'.tid = tid) →
+    (dictGet sc.wl f = some tid ∨ ∃ e ∈ l, f ∈ e.wl ∧ expiredP now e = false) →
+    dictGet (l.foldl (scanEntry now) sc).wl f = some tid
+  | [], sc, _, h => by
+    rcases h with h | ⟨e, he, _⟩
+    · exact h
+    · cases he
+  | e :: r, sc, hu, h => by
+    rw [List.foldl_cons]
+    refine scan_wl_get now f tid r _ (fun e' he' => hu e' (List.mem_cons_of_mem _ he')) ?_
+    rw [scanEntry_wl, ]
+    by_cases hx : expiredP now e = true
+    · simp only [hx, if_true]
+      rcases h with h | ⟨e0, he0, hf0, hx0⟩
+      · exact .inl h
+      · rcases List.mem_cons.mp he0 with rfl | h1
+        · rw [hx] at hx0; cases hx0
+        · exact .inr ⟨e0, h1, hf0, hx0⟩
+    · simp only [hx, if_false, Bool.false_eq_true]
+      rw [dictFold_get]
+      by_cases hf : f ∈ e.wl
+      · simp only [hf, if_true]
+        rw [hu e List.mem_cons_self hf]; exact .inl rfl
+      · simp only [hf, if_false]
+        rcases h with h | ⟨e0, he0, hf0, hx0⟩
+        · exact .inl h
+        · rcases List.mem_cons.mp he0 with rfl | h1
+          · exact absurd hf0 hf
+          · exact .inr ⟨e0, h1, hf0, hx0⟩
+
+theorem vselect_ready_now_wl (env : Env) (now : Nat) (rk wk xk : List Nat) (to : Nat) (p ht : Bool) (f rt : Nat)
+    (hf : f ∈ wk) (hrt : fdTime env.wAt f = some rt) (hle : rt ≤ now) :
+    f ∈ (vselect env now rk wk xk to p ht).wo := by
+  have hm : f ∈ readyAt env.wAt now wk := by
+    unfold readyAt
+    exact List.mem_filter.mpr ⟨hf, by simp [hrt, hle]⟩
+  unfold vselect
+  simp only []
+  rw [if_pos (.inr (.inr (.inl (List.ne_nil_of_mem hm))))]
+  exact hm
+
+theorem hubFinish_ready_fd_wl (sc : Scan) (r : SelRes) {s2 : St} (hi2 : Inv s2) (hc2 : s2.crashed = false)
+    (hro : ∀ i ∈ r.ro, i ∈ sc.rl.map (·.1)) (hwo : ∀ i ∈ r.wo, i ∈ sc.wl.map (·.1)) (hxo : ∀ i ∈ r.xo, i ∈ sc.xl.map (·.1))
+    (hk2 : ∀ p, p ∈ sc.rl ∨ p ∈ sc.wl ∨ p ∈ sc.xl → p.2 ∈ hubTids s2)
+    (f tid : Nat) (hget : dictGet sc.wl f = some tid) (hfro : f ∈ r.wo) : tid ∈ (hubFinish sc r s2).ready := by
+  have hne : r.wo ≠ [] := List.ne_nil_of_mem hfro
+  unfold Pox.Recoco.hubFinish
+  rw [if_neg (by simp [hne])]
+  have hp := hubPong_nc r hi2
+  have hi3 := hi2.hubPong r
+  have hc3 : (hubPong r s2).crashed = false := by rw [hp.1]; exact hc2
+  unfold Pox.Recoco.hubDispatch
+  rw [if_neg (by simp [hc3]), if_neg (by simp [hne])]
+  obtain ⟨r1, h1⟩ := retsLoop_some (m := sc.rl) (which := 0) r.ro [] hro
+  obtain ⟨r2, h2⟩ := retsLoop_some (m := sc.wl) (which := 1) r.wo r1 hwo
+  obtain ⟨r3, h3⟩ := retsLoop_some (m := sc.xl) (which := 2) r.xo r2 hxo
+  have hK : ∀ p, p ∈ sc.rl ∨ p ∈ sc.wl ∨ p ∈ sc.xl → p.2 ∈ hubTids (hubPong r s2) := fun p hp' => hp.2 _ (hk2 p hp')
+  have k1 := retsLoop_keys (K := fun t => t ∈ hubTids (hubPong r s2)) (fun p hp => hK p (.inl hp)) _ _ _ h1 (by simp) (by simp)
+  have k2 := retsLoop_keys (K := fun t => t ∈ hubTids (hubPong r s2)) (fun p hp => hK p (.inr (.inl hp))) _ _ _ h2 k1.1 k1.2
+  have k3 := retsLoop_keys (K := fun t => t ∈ hubTids (hubPong r s2)) (fun p hp => hK p (.inr (.inr hp))) _ _ _ h3 k2.1 k2.2
+  simp only [h1, h2, h3, Option.bind_some]
+  have m2 := (retsLoop_mono _ _ _ h2).2 f hfro tid hget
+  have m3 := (retsLoop_mono _ _ _ h3).1 _ m2
+  exact returnAll_ready r3 hi3 hc3 k3.1 k3.2 _ m3
+
+/-- **no lost wake-up (ready descriptor).**  When the scheduler goes idle: a hub entry that waits for descriptor `f` to become
+    writable, `f` being so now and no other task waiting on `f` (a later registration for the same descriptor shadows an
+    earlier one in `_select`'s `rl` dictionary), is handed back in this very hub pass. -/
+theorem fd_ready_returns_wl (cfg : Cfg) {s : St} (hi : Inv s) (hc : s.crashed = false) (hr : s.ready = [])
+    (e : HubEntry) (he : e ∈ s.hub) (f : Nat) (hf : f ∈ e.wl) (huniq : ∀ e' ∈ s.hub, f ∈ e'.wl → e'.tid = e.tid)
+    (rt : Nat) (hrt : fdTime cfg.env.wAt f = some rt) (hle : rt ≤ s.now) : e.tid ∈ (idleStep cfg s).ready := by
+  by_cases hx : expiredP s.now e = true
+  · -- its timeout has expired as well: it is returned as expired
+    unfold expiredP at hx
+    cases hw : e.tto with
+    | none => simp [hw] at hx
+    | some w => simp [hw] at hx; exact expired_returns cfg hi hc hr e he w hw hx
+  · have hx' : expiredP s.now e = false := by simpa using hx
+    have hsc := hubScan_ok s
+    obtain ⟨hnd, hmem, hlv⟩ := hubScan_expired_props hi
+    have hexp := returnExpired_nc (hubScan s).expired hi hnd hmem
+    have hi1 := Inv.returnExpired (hubScan s).expired hi
+    have keep : ∀ e ∈ s.hub, (∀ w, e.tto = some w → s.now < w) → e.tid ∈ hubTids (Pox.Recoco.returnExpired s (hubScan s).expired) :=
+      fun e he hl => hexp.2 e.tid (List.mem_map_of_mem he) (hlv e he hl)
+    have hget : dictGet (hubScan s).wl f = some e.tid := by
+      unfold hubScan
+      exact scan_wl_get s.now f e.tid s.hub {} huniq (.inr ⟨e, he, hf, hx'⟩)
+    have hkey := dictGet_some_key hget
+    unfold idleStep
+    rw [if_pos hr]
+    unfold Pox.Recoco.hubSelect
+    simp only []
+    rw [if_neg (by rw [hexp.1, hc]; simp)]
+    have hnow : (Pox.Recoco.returnExpired s (hubScan s).expired).now = s.now := returnExpired_now _ _
+    have hv := vselect_sub cfg.env (Pox.Recoco.returnExpired s (hubScan s).expired).now ((hubScan s).rl.map (·.1))
+      ((hubScan s).wl.map (·.1)) ((hubScan s).xl.map (·.1)) (hubTimeout (hubScan s))
+      (decide (0 < (Pox.Recoco.returnExpired s (hubScan s).expired).pings)) (hubScan s).timeoutTask.isSome
+    have hfro := vselect_ready_now_wl cfg.env (Pox.Recoco.returnExpired s (hubScan s).expired).now ((hubScan s).rl.map (·.1))
+      ((hubScan s).wl.map (·.1)) ((hubScan s).xl.map (·.1)) (hubTimeout (hubScan s))
+      (decide (0 < (Pox.Recoco.returnExpired s (hubScan s).expired).pings)) (hubScan s).timeoutTask.isSome f rt hkey hrt (by rw [hnow]; exact hle)
+    refine hubFinish_ready_fd_wl _ _ ?_ ?_ hv.1 hv.2.1 hv.2.2 ?_ f e.tid hget hfro
+    · held hi1
+    · show (Pox.Recoco.returnExpired s (hubScan s).expired).crashed = false
+      rw [hexp.1]; exact hc
+    · intro p hp
+      obtain ⟨e', he', het, _, hl⟩ := hsc.fds p hp
+      have := keep e' he' hl
+      rw [het] at this
+      simpa [hubTids] using this
+
+
+theorem scanEntry_xl (now : Nat) (sc : Scan) (e : HubEntry) :
+    (scanEntry now sc e).xl = if expiredP now e then sc.xl else e.xl.foldl (fun m i => dictSet m i e.tid) sc.xl := by
+  unfold scanEntry expiredP
+  cases hto : e.tto with
+  | none => simp [addFds]
+  | some w =>
+    simp only []
+    by_cases h : w ≤ now
+    · simp [h]
+    · simp only [h, if_false, decide_false, Bool.false_eq_true]
+      cases sc.timeout with
+      | none => simp [addFds]
+      | some cur => simp only [addFds]; split <;> rfl
+
+/-- the `xl` dictionary after the scan: a descriptor that a non-expired entry waits on, and that only entries of task `tid` wait on -/
+theorem scan_xl_get (now f tid : Nat) : ∀ (l : List HubEntry) (sc : Scan),
+    (∀ e' ∈ l, f ∈ e'.xl → e'.tid = tid) →
+    (dictGet sc.xl f = some tid ∨ ∃ e ∈ l, f ∈ e.xl ∧ expiredP now e = false) →
+    dictGet (l.foldl (scanEntry now) sc).xl f = some tid
+  | [], sc, _, h => by
+    rcases h with h | ⟨e, he, _⟩
+    · exact h
+    · cases he
+  | e :: r, sc, hu, h => by
+    rw [List.foldl_cons]
+    refine scan_xl_get now f tid r _ (fun e' he' => hu e' (List.mem_cons_of_mem _ he')) ?_
+    rw [scanEntry_xl, ]
+    by_cases hx : expiredP now e = true
+    · simp only [hx, if_true]
+      rcases h with h | ⟨e0, he0, hf0, hx0⟩
+      · exact .inl h
+      · rcases List.mem_cons.mp he0 with rfl | h1
+        · rw [hx] at hx0; cases hx0
+        · exact .inr ⟨e0, h1, hf0, hx0⟩
+    · simp only [hx, if_false, Bool.false_eq_true]
+      rw [dictFold_get]
+      by_cases hf : f ∈ e.xl
+      · simp only [hf, if_true]
+        rw [hu e List.mem_cons_self hf]; exact .inl rfl
+      · simp only [hf, if_false]
+        rcases h with h | ⟨e0, he0, hf0, hx0⟩
+        · exact .inl h
+        · rcases List.mem_cons.mp he0 with rfl | h1
+          · exact absurd hf0 hf
+          · exact .inr ⟨e0, h1, hf0, hx0⟩
+
+theorem vselect_ready_now_xl (env : Env) (now : Nat) (rk wk xk : List Nat) (to : Nat) (p ht : Bool) (f rt : Nat)
+    (hf : f ∈ xk) (hrt : fdTime env.xAt f = some rt) (hle : rt ≤ now) :
+    f ∈ (vselect env now rk wk xk to p ht).xo := by
+  have hm : f ∈ readyAt env.xAt now xk := by
+    unfold readyAt
+    exact List.mem_filter.mpr ⟨hf, by simp [hrt, hle]⟩
+  unfold vselect
+  simp only []
+  rw [if_pos (.inr (.inr (.inr (List.ne_nil_of_mem hm))))]
+  exact hm
+
+theorem hubFinish_ready_fd_xl (sc : Scan) (r : SelRes) {s2 : St} (hi2 : Inv s2) (hc2 : s2.crashed = false)
+    (hro : ∀ i ∈ r.ro, i ∈ sc.rl.map (·.1)) (hwo : ∀ i ∈ r.wo, i ∈ sc.wl.map (·.1)) (hxo : ∀ i ∈ r.xo, i ∈ sc.xl.map (·.1))
+    (hk2 : ∀ p, p ∈ sc.rl ∨ p ∈ sc.wl ∨ p ∈ sc.xl → p.2 ∈ hubTids s2)
+    (f tid : Nat) (hget : dictGet sc.xl f = some tid) (hfro : f ∈ r.xo) : tid ∈ (hubFinish sc r s2).ready := by
+  have hne : r.xo ≠ [] := List.ne_nil_of_mem hfro
+  unfold Pox.Recoco.hubFinish
+  rw [if_neg (by simp [hne])]
+  have hp := hubPong_nc r hi2
+  have hi3 := hi2.hubPong r
+  have hc3 : (hubPong r s2).crashed = false := by rw [hp.1]; exact hc2
+  unfold Pox.Recoco.hubDispatch
+  rw [if_neg (by simp [hc3]), if_neg (by simp [hne])]
+  obtain ⟨r1, h1⟩ := retsLoop_some (m := sc.rl) (which := 0) r.ro [] hro
+  obtain ⟨r2, h2⟩ := retsLoop_some (m := sc.wl) (which := 1) r.wo r1 hwo
+  obtain ⟨r3, h3⟩ := retsLoop_some (m := sc.xl) (which := 2) r.xo r2 hxo
+  have hK : ∀ p, p ∈ sc.rl ∨ p ∈ sc.wl ∨ p ∈ sc.xl → p.2 ∈ hubTids (hubPong r s2) := fun p hp' => hp.2 _ (hk2 p hp')
+  have k1 := retsLoop_keys (K := fun t => t ∈ hubTids (hubPong r s2)) (fun p hp => hK p (.inl hp)) _ _ _ h1 (by simp) (by simp)
+  have k2 := retsLoop_keys (K := fun t => t ∈ hubTids (hubPong r s2)) (fun p hp => hK p (.inr (.inl hp))) _ _ _ h2 k1.1 k1.2
+  have k3 := retsLoop_keys (K := fun t => t ∈ hubTids (hubPong r s2)) (fun p hp => hK p (.inr (.inr hp))) _ _ _ h3 k2.1 k2.2
+  simp only [h1, h2, h3, Option.bind_some]
+  have m3 := (retsLoop_mono _ _ _ h3).2 f hfro tid hget
+  exact returnAll_ready r3 hi3 hc3 k3.1 k3.2 _ m3
+
+/-- **no lost wake-up (ready descriptor).**  When the scheduler goes idle: a hub entry that waits for descriptor `f` to become
+    in error, `f` being so now and no other task waiting on `f` (a later registration for the same descriptor shadows an
+    earlier one in `_select`'s `rl` dictionary), is handed back in this very hub pass. -/
+theorem fd_ready_returns_xl (cfg : Cfg) {s : St} (hi : Inv s) (hc : s.crashed = false) (hr : s.ready = [])
+    (e : HubEntry) (he : e ∈ s.hub) (f : Nat) (hf : f ∈ e.xl) (huniq : ∀ e' ∈ s.hub, f ∈ e'.xl → e'.tid = e.tid)
+    (rt : Nat) (hrt : fdTime cfg.env.xAt f = some rt) (hle : rt ≤ s.now) : e.tid ∈ (idleStep cfg s).ready := by
+  by_cases hx : expiredP s.now e = true
+  · -- its timeout has expired as well: it is returned as expired
+    unfold expiredP at hx
+    cases hw : e.tto with
+    | none => simp [hw] at hx
+    | some w => simp [hw] at hx; exact expired_returns cfg hi hc hr e he w hw hx
+  · have hx' : expiredP s.now e = false := by simpa using hx
+    have hsc := hubScan_ok s
+    obtain ⟨hnd, hmem, hlv⟩ := hubScan_expired_props hi
+    have hexp := returnExpired_nc (hubScan s).expired hi hnd hmem
+    have hi1 := Inv.returnExpired (hubScan s).expired hi
+    have keep : ∀ e ∈ s.hub, (∀ w, e.tto = some w → s.now < w) → e.tid ∈ hubTids (Pox.Recoco.returnExpired s (hubScan s).expired) :=
+      fun e he hl => hexp.2 e.tid (List.mem_map_of_mem he) (hlv e he hl)
+    have hget : dictGet (hubScan s).xl f = some e.tid := by
+      unfold hubScan
+      exact scan_xl_get s.now f e.tid s.hub {} huniq (.inr ⟨e, he, hf, hx'⟩)
+    have hkey := dictGet_some_key hget
+    unfold idleStep
+    rw [if_pos hr]
+    unfold Pox.Recoco.hubSelect
+    simp only []
+    rw [if_neg (by rw [hexp.1, hc]; simp)]
+    have hnow : (Pox.Recoco.returnExpired s (hubScan s).expired).now = s.now := returnExpired_now _ _
+    have hv := vselect_sub cfg.env (Pox.Recoco.returnExpired s (hubScan s).expired).now ((hubScan s).rl.map (·.1))
+      ((hubScan s).wl.map (·.1)) ((hubScan s).xl.map (·.1)) (hubTimeout (hubScan s))
+      (decide (0 < (Pox.Recoco.returnExpired s (hubScan s).expired).pings)) (hubScan s).timeoutTask.isSome
+    have hfro := vselect_ready_now_xl cfg.env (Pox.Recoco.returnExpired s (hubScan s).expired).now ((hubScan s).rl.map (·.1))
+      ((hubScan s).wl.map (·.1)) ((hubScan s).xl.map (·.1)) (hubTimeout (hubScan s))
+      (decide (0 < (Pox.Recoco.returnExpired s (hubScan s).expired).pings)) (hubScan s).timeoutTask.isSome f rt hkey hrt (by rw [hnow]; exact hle)
+    refine hubFinish_ready_fd_xl _ _ ?_ ?_ hv.1 hv.2.1 hv.2.2 ?_ f e.tid hget hfro
+    · held hi1
+    · show (Pox.Recoco.returnExpired s (hubScan s).expired).crashed = false
+      rw [hexp.1]; exact hc
+    · intro p hp
+      obtain ⟨e', he', het, _, hl⟩ := hsc.fds p hp
+      have := keep e' he' hl
+      rw [het] at this
+      simpa [hubTids] using this
+
 end Pox.Recoco
